@@ -27,6 +27,10 @@
 # The shared set-operation code is modelled AS REPAIRED by fixes/02_intersection_empty_order.patch and fixes/02_union_empty_theta.patch
 # (prepared by the C02 family): against a tree without them this check reports VIOLATION (sig empty_theta_below_max for an empty
 # p<1 union result; inter_theta / inter_empty for the latched intersection); with them it is green (seeds 1,2,3).
+# Round-2 seeds: C13-4 (update(uint32_t) not going through int32_t: keys >= 2^31 hash differently) is caught by the edge-value battery
+#   (every key overload x edge values into an lg_k = 12 sketch and a Theta sketch, every 9th case: deterministic in the quick tier);
+#   C19-6 (A-not-B hash path moves entries out of an lvalue A) is caught because every lvalue operand of a set operation / filter is
+#   queried again afterwards (query_changed / summary_not_fold / correspondence) and the operation is repeated (repeat_differs).
 # Harmless rewrites confirmed tolerated (exit 0):
 #   H1  theta_union_base::update always copies the incoming entry (no conditional_forward)
 #   H2  STRIDE_HASH_BITS 7 -> 8 (different slot order in every table)
@@ -41,10 +45,10 @@ RULE = ('operation scripts over registers holding update_tuple_sketch / compact_
         'an instrumented "log" summary (records the create mark, every value in arrival order and every combine with its operand: non-commutative, so order '
         'and exactly-once matter; moved-from summaries are poisoned; values offered as lvalues or as rvalues of a move-only type), an arithmetic '
         'summary (update_tuple_sketch<int64_t> with the DEFAULT update/union policies) and array_of_doubles (1..3 columns). lg_k 5..7 (12 sometimes in thorough), all resize factors, p in {1, 0.5, 0.1}, key streams with heavy repetition through every '
-        'update overload, lengths aimed at resize / rebuild thresholds, trim / reset / compact(ordered or not) / copy / filter interleaved; then set '
+        'update overload (every 9th case feeds EVERY key overload its edge values: >= 2^31, >= 2^63, negative, -0.0, NaN payloads, empty string, strings / buffers of every length 0..40, into an lg_k 12 sketch and a Theta sketch), lengths aimed at resize / rebuild thresholds, trim / reset / compact(ordered or not) / copy / filter interleaved; then set '
         'operations over the registers in every input form (update sketch, ordered / unordered compact, filter result, compact_tuple_sketch built from a '
         'Theta sketch, results of earlier set operations), as lvalues and as rvalues (moved copies), unions smaller than their inputs so that trimming '
-        'triggers, several get_result per union / intersection, seed mismatches; every sketch-valued result is dumped (theta64, is_empty, is_ordered, '
+        'triggers, several get_result per union / intersection, seed mismatches; after every set operation or filter the lvalue operands are queried again (must be unchanged) and the operation is repeated (same result required); every sketch-valued result is dumped (theta64, is_empty, is_ordered, '
         'sorted (key, summary) pairs) and compared with the model, and the property predicates are evaluated on the dumps; '
         'non-trivial = the case has a set operation or filter on non-empty operands, or reaches estimation mode, or repeats keys')
 TRUSTED = ['MurmurHash3 model coq/Murmur3.v and the input canonicalisation coq/Canon.v (exercised against the implementation by every update of this check)',
@@ -81,10 +85,32 @@ def key_op(rng, x):
     s = ('%d' % x).encode()
     return [10 if k < 0.9 else 11] + list(s)
 
+EDGE_INTS = [0, -1, 1, 2**31, 2**31 - 1, 2**31 + 5, 2**32 - 1, 2**32, -2**31, 2**63 - 1, 2**63, -2**63, 2**64 - 1, 127, 128, 255, 256,
+             32767, 32768, 65535, 65536, -128, -129, -32768, 0xdeadbeef, 0x80000001]
+EDGE_DOUBLES = [0x0, 0x8000000000000000, 0x7ff8000000000000, 0xfff8000000000000, 0x7ff0000000000001, 0x7ff4000000000000,
+                0xffffffffffffffff, 0x7ff0000000000000, 0xfff0000000000000, 0x1, 0x8000000000000001, 0x000fffffffffffff,
+                0x0010000000000000, 0x3ff0000000000000, 0xbff0000000000000, 0x7fefffffffffffff, 0x4014000000000000, 0x41e0000000000000]
+EDGE_FLOATS = [0x0, 0x80000000, 0x7fc00000, 0xffc00000, 0x7f800001, 0x7fa00000, 0xffffffff, 0x7f800000, 0xff800000,
+               0x1, 0x80000001, 0x007fffff, 0x00800000, 0x3f800000, 0xbf800000, 0x7f7fffff, 0x40a00000, 0x4f000000]
+
+def edge_battery():
+    """EVERY key overload on its edge values (deterministic): all integer widths incl. values >= 2^31 / >= 2^63 / negative,
+       double and float bit patterns (-0.0, NaN payloads, infinities, subnormals), strings and raw buffers of every length 0..40"""
+    ups = []
+    for v in EDGE_INTS:
+        for kind in range(8):
+            ups.append([kind, v])
+    for b in EDGE_DOUBLES: ups.append([8, b])
+    for b in EDGE_FLOATS: ups.append([9, b])
+    for n in range(0, 41):
+        ups.append([10] + [(37 + 7 * i) % 256 for i in range(n)])
+        ups.append([11] + [(91 + 5 * i) % 256 for i in range(n)])
+    return ups
+
 class G:
     """script builder for one case"""
     def __init__(self, rng, pol):
-        self.rng = rng; self.pol = pol; self.ops = []; self.tags = set(); self.ctr = 0; self.next_tmp = 100
+        self.rng = rng; self.pol = pol; self.ops = []; self.tags = set(); self.ctr = 0; self.next_tmp = 100; self.repeats = {}
     def vals(self):
         self.ctr += 1
         if self.pol == 0:
@@ -114,10 +140,18 @@ class G:
             t = self.tmp()
             self.ops.append([7, r])
             self.ops.append([11, r, t, rng.randrange(2), rng.choice([0, 1, 2, 3])]); self.tags.add('filter')
+            self.again(); self.ops.append([7, r])          # same filter again = same result; the source is unchanged
             return t
         t = self.tmp(); self.ops.append([5, r, t, rng.randrange(2)])
         t2 = self.tmp(); self.ops.append([5, t, t2, rng.randrange(2)])
         return t2
+    def again(self):
+        """repeat the last sketch-valued operation into a fresh register: the oracle requires the same result"""
+        op = list(self.ops[-1]); j = len(self.ops) - 1
+        dst = {11: 2, 14: 2, 18: 2, 19: 3}[op[0]]
+        op[dst] = self.tmp()
+        self.ops.append(op); self.repeats[len(self.ops) - 1] = j
+
     def movable(self, r):
         """(register, mv flag): either r itself as an lvalue, or a fresh copy handed over as an rvalue"""
         if self.rng.random() < 0.4:
@@ -148,6 +182,20 @@ def gen(rng, tier):
             g.ops.append([1, 9, 300, lgk, 0, pb, seed])
             g.ops.append([2, 9, 0, 1, 1, 0, 5]); g.ops.append([7, 9]); g.ops.append([5, 9, 8, 1])
             g.ops.append([2, 0, 0, (abs(pol) or 1) + 1] + [1] * ((abs(pol) or 1) + 1) + [0, 5])   # wrong number of values
+        if ci % 9 == 1:
+            # every key overload on its edge values into a sketch large enough to retain them all (and into a Theta sketch)
+            EB, ET = 70, 71
+            g.ops.append([1, EB, pol, 12, rng.randrange(4), P_ONE, 9001]); g.ops.append([8, ET, 12, 0, P_ONE, 9001])
+            for u in edge_battery():
+                v = g.vals()
+                g.ops.append([2, EB, rng.randrange(2), len(v)] + v + u)
+                g.ops.append([9, ET] + u)
+            g.ops.append([7, EB])
+            t = g.tmp(); v1 = [5] * max(1, abs(pol))
+            g.ops.append([10, ET, t, 1, 0, pol] + v1)
+            t2 = g.tmp(); g.ops.append([19, EB, t, t2, 1, 9001, 0])     # same keys through both sketches: A-not-B is empty of entries
+            g.ops.append([7, EB]); g.ops.append([7, t])
+            g.tags.add('edge-values')
         TH = 50
         g.ops.append([8, TH, lgk, rng.randrange(4), P_ONE if rng.random() < 0.7 else fbits(0.5), seed])
         cap = 15 * k // 8
@@ -174,6 +222,7 @@ def gen(rng, tier):
                 g.ops.append([7, r]); t = g.tmp(); g.ops.append([5, r, t, rng.randrange(2)])
             elif z < 0.016:
                 g.ops.append([7, r]); t = g.tmp(); g.ops.append([11, r, t, rng.randrange(2), rng.choice([0, 1, 2, 4])]); g.tags.add('filter')
+                g.again(); g.ops.append([7, r])
             elif z < 0.018:
                 g.ops.append([2, r, 0, len(g.vals())] + g.vals() + [10])      # empty string key: ignored
         if dup > 1 and nstream: g.tags.add('repeated-keys')
@@ -199,9 +248,11 @@ def gen(rng, tier):
                     o = g.operand(r, isu, TH)
                     o, mv = g.movable(o)
                     g.ops.append([13, UN, o, mv])
+                    if not mv: g.ops.append([7, o])                     # an lvalue operand must come back unchanged
                     if rng.random() < 0.3:
                         t = g.tmp(); g.ops.append([14, UN, t, rng.randrange(2)]); results.append(t)
                 t = g.tmp(); g.ops.append([14, UN, t, rng.randrange(2)]); results.append(t)
+                g.again()                                               # get_result is a pure observer
                 if rng.random() < 0.2:
                     g.ops.append([15, UN]); t = g.tmp(); g.ops.append([14, UN, t, 1])
                 g.tags.add('union')
@@ -215,7 +266,9 @@ def gen(rng, tier):
                     o = g.operand(r, isu, TH)
                     o, mv = g.movable(o)
                     g.ops.append([17, IN, o, mv])
+                    if not mv: g.ops.append([7, o])
                     t = g.tmp(); g.ops.append([18, IN, t, rng.randrange(2)]); results.append(t)
+                    g.again()
                 g.tags.add('intersection')
             else:
                 ra, isa = rng.choice(pool); rb, isb = rng.choice(pool)
@@ -223,8 +276,12 @@ def gen(rng, tier):
                 a, mv = g.movable(a)
                 t = g.tmp()
                 g.ops.append([19, a, b, t, rng.randrange(2), seed if rng.random() < 0.95 else seed + 1, mv]); results.append(t)
+                if not mv:
+                    g.again()                                           # same operands (lvalues), same answer
+                    g.ops.append([7, a])
+                if not (mv and a == b): g.ops.append([7, b])
                 g.tags.add('a-not-b')
-        cases.append(dict(id='tu%d' % ci, ops=g.ops, tags=sorted(g.tags), cost=len(g.ops) * (1 if lgk <= 8 else 3)))
+        cases.append(dict(id='tu%d' % ci, ops=g.ops, tags=sorted(g.tags), cost=len(g.ops) * (1 if lgk <= 8 else 3), repeats=g.repeats))
     cases.sort(key=lambda c: -c['cost'])
     return cases
 
@@ -258,6 +315,15 @@ def oracle(case, irecs, mrecs):
     tghost = {}    # theta sketches: seen hashes
     obs = {}       # register -> last dump seen (dict) with 'pol'; removed when stale
     unions = {}; inters = {}
+    # an operation repeated right away into another register (generator: G.again): pure observers / lvalue operands => same result
+    DST = {11: 2, 14: 2, 18: 2, 19: 3}
+    rep = {}
+    for i in range(1, len(case['ops'])):
+        a, b = case['ops'][i - 1], case['ops'][i]
+        if b[0] in DST and a[0] == b[0] and len(a) == len(b) and not (b[0] == 19 and b[6] != 0):
+            d = DST[b[0]]
+            if a[:d] + a[d + 1:] == b[:d] + b[d + 1:] and a[d] != b[d]:
+                rep[i] = i - 1
     def check_dump(d, i, what):
         if d['bad']:
             fail('dump_inconsistent', '%s: %s' % (what, d['bad']), i); return False
@@ -302,6 +368,9 @@ def oracle(case, irecs, mrecs):
         code = op[0]
         if R == [-2]:
             continue
+        j = rep.get(i)
+        if j is not None and j < len(irecs) and irecs[j]['R'] != R:
+            fail('repeat_differs', 'the same operation on the same (lvalue) operands gave a different result the second time (ops %d and %d, opcode %d)' % (j, i, code), i)
         refused = (R == [-1])
         if code == 1:
             for t in (ghost, obs): t.pop(op[1], None) if not refused else None
